@@ -121,7 +121,7 @@ pub fn fam_hist(kind: Kind, n: usize, walpha: &'static str, orders: &[(u8, u8)])
     Family { kind, n, walpha, orders: orders.to_vec(), min_edges: 0, max_edges: usize::MAX, primed: false, histories: true }
 }
 
-pub const MUTATION_LABELS: [&str; 8] = [
+pub const MUTATION_LABELS: [&str; 9] = [
     "add_node(new name)",
     "add_edge on the first absent pair",
     "add_node(existing name) again",
@@ -130,6 +130,7 @@ pub const MUTATION_LABELS: [&str; 8] = [
     "add_node again for every node",
     "add_edge on the first edge's pair with a LIGHTER weight (KeepLast specs: replaced; KeepFirst specs: ignored)",
     "add_edge on the heaviest edge's pair with a weight below every other (KeepLast: replaced; KeepFirst: ignored)",
+    "a REJECTED add_edge from the first node to a name that is not in the graph (MissingNodeStrategy::Error): Err, nothing changes",
 ];
 
 /// applies mutation `k` to the real graph IN PLACE and to the abstract description; false = not applicable
@@ -208,6 +209,14 @@ pub fn apply_mutation(b: &mut Built, k: usize, f: &Family) -> bool {
                 b.edges[ei] = (u, v, wt);
             }
             true
+        }
+        8 => {
+            // a refused call is part of a history too: whatever it wrote before it was refused is read by the next query
+            if b.n == 0 || !matches!(b.g.specs.missing_node_strategy, MissingNodeStrategy::Error) {
+                return false;
+            }
+            let first = b.names[b.node_order[0]];
+            b.g.add_edge(mk(first, "not-a-node", w[0])).is_err() && b.g.add_edge(mk("not-a-node", first, w[0])).is_err()
         }
         _ => {
             if b.n == 0 {
